@@ -242,6 +242,9 @@ def eps23_doc():
 def emit_solver_fn(hdr, cls, name, cname, report, ret_c=None, extra=(), pre=(), loops=None, contract="",
                    maythrow=(), params=None, ordinal=0, params_re=None, members=None, self_type="Solver", pre_body=""):
     f = X.locate(hdr, name, cls=cls, ordinal=ordinal, params_re=params_re)
+    f, inl = X.inline_index_helpers(f, hdr, cls)      # e.g. the rule switch moved into a helper that returns the sorted index
+    if inl:
+        report["%s::%s inlined index helpers" % (cls, name)] = inl
     members = list(members or SOLVER_MEMBERS) + [n for _, n in EXTRA_FIELDS["Solver"]]
     t, R = cgen.emit(f, cname, ret_c=ret_c, self_type=self_type, members=members, self_name="S",
                      extra_rules=list(extra), pre_rules=list(pre), loop_contracts=loops or {}, contract=contract,
